@@ -554,6 +554,9 @@ class _SetOperation(Selectable, Term):  # type:ignore[misc]
     @builder
     def orderby(self, *fields: Field, **kwargs: Any) -> "Self":  # type:ignore[return]
         for field in fields:
+            if isinstance(field, int) and not isinstance(field, bool):
+                # a select-list position, not a value: it stays in the SQL text
+                field = ValueWrapper(field, allow_parametrize=False)  # type:ignore[assignment]
             field = (
                 Field(field, table=self.base_query._from[0])  # type:ignore[assignment]
                 if isinstance(field, str)
@@ -1170,8 +1173,8 @@ class QueryBuilder(Selectable, Term):  # type:ignore[misc]
             if isinstance(term, str):
                 term = Field(term, table=self._from[0])
             elif isinstance(term, int):
-                field = Field(str(term), table=self._from[0])
-                term = field.wrap_constant(term)
+                # a select-list position, not a value: it stays in the SQL text
+                term = ValueWrapper(term, allow_parametrize=False)
 
             self._groupbys.append(term)  # type:ignore[arg-type]
 
@@ -1214,6 +1217,9 @@ class QueryBuilder(Selectable, Term):  # type:ignore[misc]
     @builder
     def orderby(self, *fields: Any, **kwargs: Any) -> "Self":  # type:ignore[return]
         for field in fields:
+            if isinstance(field, int) and not isinstance(field, bool):
+                # a select-list position, not a value: it stays in the SQL text
+                field = ValueWrapper(field, allow_parametrize=False)
             field = (
                 Field(field, table=self._from[0])
                 if isinstance(field, str)
